@@ -126,6 +126,13 @@ def gen_plan(seed, tier):
       if st["cmd"] == W.FC_ADD and r.chance(0.15):
         # names a buffer that certainly does not exist
         st["fbuf"] = r.pick([0x7fffffff, 4000])
+      re_ = Rng(mix(seed, "emerg", len(steps)))
+      if st["cmd"] == W.FC_ADD and re_.chance(0.08):
+        # an emergency entry (which this switch does not keep): with a
+        # timeout it is malformed, without one it is merely not possible
+        st["emerg"] = {"rem": re_.chance(0.3),
+                       "to": re_.pick([[0, 0], [5, 0], [0, 9], [3, 4],
+                                       [5, 0], [0, 9]])}
       if r.chance(0.2):
         # an address rewrite before the output (any 32-bit address: what is
         # installed has to come back in flow statistics and in errors)
@@ -374,11 +381,28 @@ def _drive(sim, world, plan, known, hit_known):
       if st.get("fbad") is not None and not full:
         bad = ("raw", struct.pack("!HHL", st["fbad"], 8, 0x2320))
         wire_acts = acts + [bad] if st.get("fbadpos") else [bad] + acts
+      em = st.get("emerg")
+      if em and (full or rw_off or wire_acts is not acts
+                 or st.get("fbuf") is not None):
+        em = None                 # (one thing wrong per request)
       raw = W.enc_flow_mod(xid, m, st["cmd"], wire_acts, cookie=st["cookie"],
                            priority=st["prio"],
-                           buffer_id=st.get("fbuf", W.NO_BUFFER))
+                           buffer_id=st.get("fbuf", W.NO_BUFFER),
+                           idle=em["to"][0] if em else 0,
+                           hard=em["to"][1] if em else 0,
+                           flags=(W.FF_EMERG | (W.FF_SEND_FLOW_REM
+                                                if em["rem"] else 0))
+                           if em else 0)
       world.send(raw)
-      if rw_off:
+      if em:
+        sim.probes["emergency_flow_mod"] += 1
+        if em["to"][0] or em["to"][1]:
+          E("error", xid, etype=W.ET_FLOW_MOD_FAILED,
+            code=W.FMFC_BAD_EMERG_TIMEOUT, req=raw)
+        else:
+          E("error", xid, etype=W.ET_FLOW_MOD_FAILED,
+            codes=(W.FMFC_ALL_TABLES_FULL, W.FMFC_EPERM), req=raw)
+      elif rw_off:
         sim.probes["flow_mod_with_disabled_action"] += 1
         E("error", xid, etype=W.ET_BAD_ACTION,
           codes=(W.BAC_BAD_TYPE,), req=raw)
